@@ -180,7 +180,6 @@ PLANS["C15"] = {
         K("c15::step_newmin", tier="thorough", timeout=3600, note="inductive step from any well-formed marker state (count <= 2^40, full doubles), sample below the first marker"),
         K("c15::step_top", tier="thorough", timeout=3600, note="same, sample at or above the last marker"),
         K("c15::step_interior", tier="thorough", timeout=7200, note="same, sample strictly inside the marker range"),
-        K("c15::step_lat", tier="thorough", timeout=7200, note="heights/sample on an i8 lattice (offset k*1024), positions <= 32: heights stay ordered, quantile() in [min,max]"),
     ],
     "meta": {
         "functions_encoded": Q_FUNCS,
